@@ -400,6 +400,32 @@ def _(c):
     c.no_raise()
 
 
+# a substance's OWN proportion (the amount a material stores it with) is not part of its formula unit: rho = n * M(formula) whatever the proportion
+@contract(f"{SUB}.__init__", ["C12"], name="Substance.__init__[own-proportion-with-a-density]")
+def _(c):
+    c.bound = "two substances x own proportion 2 / 0.5 / 3 x (mass density with volume | number density with volume); densities and volume symbolic"
+    c.chunk = 2
+    c.assume_nonzero_divisors = True
+    for text in ["H2O", "NaCl"]:
+        for prop in (2, 0.5, 3):
+            for given in ("rho", "n"):
+                def pre(b, text=text, prop=prop, given=given):
+                    x, vol = b.real("x"), b.real("vol")
+                    kw = dict(mass_density=b.new(QTY, x, "g/cm3")) if given == "rho" else dict(number_density=b.new(QTY, x, "cm-3"))
+                    mf = _mass(text) * DA_G
+                    return dict(args=[b.obj(SUB), text], kwargs=dict(proportion=prop, natural=False, volume=b.new(QTY, vol, "cm3"), **kw),
+                                env=dict(x=x, vol=vol, mf=mf, given=given, cnt=sorted(M.expand_text(text).items()), sm=[M.species(k, False)[0] * DA_G for k, n in sorted(M.expand_text(text).items())]))
+                c.scenario(f"{text} proportion={prop} {given}", pre)
+    c.requires("x > 0 and vol > 0")
+    c.ensures("near(self.mass_density.value('g/cm3'), self.number_density.value('cm-3') * sum([n * m for (k, n), m in zip(cnt, sm)]))", "rho-is-n-times-the-mass-of-one-formula-unit")
+    c.ensures("near(self.mass.value('g'), self.mass_density.value('g/cm3') * vol)", "mass-is-rho-times-volume")
+    c.ensures("(lambda t, rho, nd: all([near(t[k].data()['n'], n * nd) for (k, n), m in zip(cnt, sm)]) and near(sum([t[k].data()['rho'] for (k, n) in cnt]), rho) and near(sum([t[k].data()['M'] for (k, n) in cnt]), rho * vol)"
+              " and near(t['sum'].data()['rho'], rho) and near(t['sum'].data()['M'], rho * vol))(self.data_matter(quantity=False), self.mass_density.value('g/cm3'), self.number_density.value('cm-3'))",
+              "component-densities-add-up-to-rho-and-component-masses-to-the-total-mass")
+    c.ensures("near(self.mass_density.value('g/cm3'), x) if given == 'rho' else near(self.number_density.value('cm-3'), x)", "the-given-density-is-kept")
+    c.no_raise()
+
+
 # the stored densities are quantities: a caller may show one of them in another unit (Quantity.to converts in place), or go on using
 # the quantity it passed in -- the table is computed from the quantities, in whatever unit they are shown
 SHOWN = [("number_density", "m-3"), ("number_density", "l-1"), ("mass_density", "kg/m3"), ("mass", "kg"), ("own-argument", "m-3")]
